@@ -30,7 +30,9 @@ def collect(only):
         if (d / "patch.diff").exists() and (d / "meta.json").exists():
             meta = json.loads((d / "meta.json").read_text())
             prop = meta["breaks_property"]
-            expect = [prop] if prop in PROPS else sorted(meta.get("detected_by_checks", []))[:1]
+            expect = meta.get("selftest_expect") or ([prop] if prop in PROPS else sorted(meta.get("detected_by_checks", []))[:1])
+            if meta.get("selftest_expect_rc"):
+                pass
             items.append(("fire", d, expect, meta.get("detected_by_checks", [])))
     for d in sorted((VERIF / "selftest" / "variants").glob("*/*/")):
         if (d / "patch.diff").exists():
@@ -82,7 +84,10 @@ def run_for_property(prop: str):
             rc, first = res[prop]
             if kind == "fire":
                 nf += 1
-                ok = rc == 1
+                want = 1
+                if (d / "meta.json").exists():
+                    want = json.loads((d / "meta.json").read_text()).get("selftest_expect_rc", 1)
+                ok = rc == want
                 log.append(f"[{'ok' if ok else 'MISS'}] must-fire {name}: rc={rc} {first[:150]}")
             else:
                 ns += 1
@@ -108,7 +113,11 @@ def main():
                 continue
             if kind == "fire":
                 nfire += 1
-                ok = all(rc == 1 for rc, _ in res.values())
+                want = 1
+                mp = d / "meta.json"
+                if mp.exists():
+                    want = json.loads(mp.read_text()).get("selftest_expect_rc", 1)
+                ok = all(rc == want for rc, _ in res.values())
                 print(f"[{'ok' if ok else 'MISS'}] must-fire   {name}: " + "; ".join(f"{p} rc={rc}" for p, (rc, _) in res.items()))
                 if not ok:
                     bad += 1
